@@ -1,5 +1,6 @@
 import MahfModel.Model.Templates
 import MahfModel.Model.TemplatesEval
+import MahfModel.Model.TemplatesSize
 open MahfModel MahfModel.Tpl Sexp
 
 def compositeNames : List String := ["Block", "Loop", "Branch", "Scope"]
@@ -12,6 +13,9 @@ structure StepObs where
   name : String
   delta : Int
   size : Int
+  /-- sizes of the (up to three) top-most populations before the step, top first -/
+  before : List Nat := []
+  hasBefore : Bool := false
 
 def parseSteps (xs : List Sexp) : List StepObs :=
   xs.filterMap fun
@@ -19,7 +23,42 @@ def parseSteps (xs : List Sexp) : List StepObs :=
       let d ← intOf? d
       let sz ← intOf? sz
       pure { name := n, delta := d, size := sz }
+    | .list [.atom n, d, sz, b0, b1, b2] => do
+      let d ← intOf? d
+      let sz ← intOf? sz
+      let bs ← [b0, b1, b2].mapM intOf?
+      pure { name := n, delta := d, size := sz, hasBefore := true,
+             before := (bs.takeWhile (· ≥ 0)).map Int.toNat }
     | _ => none
+
+mutual
+  /-- all leaves of a tree with their size parameters -/
+  def sleaves : SComp → List (LeafKind × Nat × Nat)
+    | .leaf k a b => [(k, a, b)]
+    | .seq cs => sleavesL cs
+    | .loop b => sleaves b
+    | .branch t e => sleaves t ++ sleaves e
+    | .scope b => sleaves b
+  def sleavesL : SComps → List (LeafKind × Nat × Nat)
+    | .nil => []
+    | .cons c cs => sleaves c ++ sleavesL cs
+end
+
+/-- K for the size transformers: the size observed after an executed leaf step lies in the interval that
+`sizeStep` predicts from the sizes observed before it, for (one of) the leaves of that name in the tree. -/
+def sizeStepOk (leaves : List (LeafKind × Nat × Nat)) (st : StepObs) : Bool :=
+  if compositeNames.contains st.name || !st.hasBefore then true
+  else
+    let k := LeafKind.ofName st.name
+    let before : AbsStack := st.before.map Itv.exact
+    (leaves.filter (·.1 == k)).any fun (_, a, b) =>
+      match sizeStep k a b before with
+      | some (top :: _) => st.size ≥ 0 && top.memb st.size.toNat
+      | some [] => st.size < 0
+      | none => false
+
+def showItv (i : Itv) : Sexp :=
+  .list [ofNat i.lo, match i.hi with | some h => ofNat h | none => .atom "inf"]
 
 /-- first step whose observed height change differs from the declared effect of its component -/
 def firstBadStep (steps : List StepObs) : Option StepObs :=
@@ -56,8 +95,34 @@ def c16audit (implOut : Sexp) : Option Verdict := do
   pure { agree := bad.isNone, holds := true, cls := "-",
          model := match bad with | some b => .list [.atom "class-mismatch", b] | none => .atom "classes-ok" }
 
+/-- every observed size lies in its predicted interval, and the heights agree -/
+def concB : List Nat → AbsStack → Bool
+  | [], [] => true
+  | n :: s, i :: a => i.memb n && concB s a
+  | _, _ => false
+
+/-- K-only: one real component executed on a prepared stack `(sizeprobe COMPONENT seed (sizes …))`; where it
+succeeded, the sizes afterwards must lie in what `sizeStep` predicts from the sizes before (the component's
+parameters are read from its serialised form by the translator used for the template trees). -/
+def c16probe (args : List Sexp) (implOut : Sexp) : Option Verdict := do
+  let (comp, sizes) ← match args with
+    | [comp, _, sz] => ((tagged? "sizes" sz).bind fun l => l.mapM nat?).map fun l => (comp, l)
+    | _ => none
+  let out ← list? implOut
+  let res ← (field? "res" out).bind atom?
+  let after ← ((out.filterMap (tagged? "sizes")).head?).bind fun l => l.mapM nat?
+  let pred := match SComp.ofSexp 8 comp with
+    | .leaf k a b => sizeStep k a b (sizes.map Itv.exact)
+    | _ => none
+  let model := match pred with
+    | some a => Sexp.list (a.map showItv)
+    | none => .atom "none"
+  let agree := res != "ok" || (match pred with | some a => concB after a | none => false)
+  pure { agree, holds := true, cls := "-", model }
+
 def c16 (input implOut : Sexp) : Option Verdict := do
   if (tagged? "audit" input).isSome then return ← c16audit implOut
+  if let some args := tagged? "sizeprobe" input then return ← c16probe args implOut
   let args ← tagged? "run" input
   let (name, iters, tree) ← match args with
     | [.atom name, _, _, it, _, tree] => (nat? it).map fun i => (name, i, tree)
@@ -65,11 +130,21 @@ def c16 (input implOut : Sexp) : Option Verdict := do
   let out ← list? implOut
   let res ← (field? "res" out).bind atom?
   let comp := ofSexp 64 tree
+  let scomp := SComp.ofSexp 64 tree
   let eff := effect comp
   let bal := balanced comp
+  let presc : Option (Nat × Option Nat) := match out.filterMap (tagged? "prescribed") with
+    | [[lo, hi]] => (nat? lo).map fun l => (l, nat? hi)
+    | _ => none
+  -- the verified static verdict for the prescribed bound (what the `_size` theorems state)
+  let sw := match presc with
+    | some (l, h) => sizeWithin scomp l h
+    | none => false
   let model := Sexp.list [.list [.atom "balanced", ofBool bal],
     .list [.atom "effect", match eff with | some k => ofInt k | none => .atom "none"],
-    .list [.atom "opaque", ofBool (hasOpaque comp)]]
+    .list [.atom "opaque", ofBool (hasOpaque comp)],
+    .list [.atom "size-within", ofBool sw],
+    .list [.atom "sizes", match sizeFinal scomp with | some a => .list (a.map showItv) | none => .atom "none"]]
   if res == "ctor-err" then
     return { agree := true, holds := false, cls := "ctor-err", model }
   let steps := parseSteps ((out.filterMap (tagged? "steps")).headD [])
@@ -99,9 +174,19 @@ def c16 (input implOut : Sexp) : Option Verdict := do
   -- known, and what the verified analysis predicts for a balanced tree is what was observed
   let bad := firstBadStep steps
   let predicted := !bal || res != "ok" || (passLeak.isNone && height == some 1)
-  let agree := bad.isNone && !hasOpaque comp && predicted
+  -- K (sizes): every executed leaf's size transformer contains what was observed, and where the
+  -- verified size analysis answers `true` no outermost pass of an error-free run ended outside the bound
+  let leaves := sleaves scomp
+  let badSize := steps.find? fun st => !sizeStepOk leaves st
+  let sizePredicted := !sw || res != "ok" || sizeBad.isNone
+  -- both translators read the same structure
+  let sameTree := toLean scomp.erase == toLean comp
+  let agree := bad.isNone && !hasOpaque comp && predicted && badSize.isNone && sizePredicted && sameTree
   let model := match bad with
     | some b => Sexp.list [model, .list [.atom "bad-step", .atom b.name, ofInt b.delta]]
+    | none => model
+  let model := match badSize with
+    | some b => Sexp.list [model, .list [.atom "bad-size-step", .atom b.name, ofInt b.size, ofNats b.before]]
     | none => model
   pure { agree, holds := cls == "-", cls, model }
 
@@ -115,8 +200,28 @@ partial def genLoop (h : IO.FS.Stream) (acc : Array String) : IO (Array String) 
     genLoop h (acc.push s!"def {name}_v{v} : Comp := {toLean c}")
   | _ => genLoop h acc
 
+/-- `--gen-sized`: the same stdin ↦ Lean source of `Generated/TemplatesSized.lean` (trees with parameters). -/
+partial def genSizedLoop (h : IO.FS.Stream) (acc : Array String) : IO (Array String) := do
+  let line ← h.getLine
+  if line.isEmpty then return acc
+  match Sexp.parse line.trimAscii.toString with
+  | some (.list [.atom "tree", .atom name, .atom v, tree]) =>
+    let c := SComp.ofSexp 64 tree
+    genSizedLoop h (acc.push s!"def {name}_v{v} : SComp := {SComp.toLean c}")
+  | _ => genSizedLoop h acc
+
 def main (args : List String) : IO Unit := do
-  if args.contains "--gen" then
+  if args.contains "--gen-sized" then
+    let defs ← genSizedLoop (← IO.getStdin) #[]
+    IO.println "/- GENERATED on every run by `harness c16 --trees | drv_c16 --gen-sized` from the component trees that"
+    IO.println "   the real template constructors build (serialised through the code's own `Serialize`), keeping the"
+    IO.println "   parameters that determine population sizes. Do not edit. -/"
+    IO.println "import MahfModel.Model.TemplatesSize"
+    IO.println "namespace MahfModel.Generated.Sized"
+    IO.println "open MahfModel.Tpl"
+    for d in defs do IO.println d
+    IO.println "end MahfModel.Generated.Sized"
+  else if args.contains "--gen" then
     let defs ← genLoop (← IO.getStdin) #[]
     IO.println "/- GENERATED on every run by `harness c16 --trees | drv_c16 --gen` from the component trees that"
     IO.println "   the real template constructors build (serialised through the code's own `Serialize`). Do not edit. -/"
